@@ -16,6 +16,11 @@ ASSUMPTIONS = [
     "int32 index arithmetic and the int32 cast of ceil() are checked operations in the Model (ub outcomes); "
     "the in-domain generators keep |index| <= 10^6 and tempi in [50, 10^6] samples per beat",
 ]
+MANIFEST = dict(
+    text="Theorems over exact rationals about the Model of normalize_beatgrid (the same generic Lean code the driver runs over hardware floats): first index -4, last marker in [n, n + beat), first/last tempo kept, interior markers unchanged, result strictly increasing, idempotent, exact rejection set — for all strictly increasing grids of any length. The C++ is tied bit-for-bit to the Float instance on generated grids, applied twice, and a direct oracle states the property on the implementation's own answers.",
+    note="Trusted: Lean kernel (+ Mathlib's rationals / Int.ceil); floating-point rounding itself is not bounded by a theorem (tie tolerance 1e-9 relative); int32 index arithmetic is a checked operation of the Model.",
+    technique='Lean 4 theorems over Q about a generic executable model + bit-exact differential run over Float',
+    ref='6/C20')
 TRUSTED_EXTRA = []
 
 
